@@ -20,7 +20,7 @@ META = {
     "require": {t: ["format:nan", "format:tuple", "format:plain0", "cube:ccube", "cube:xcube",
                     "class:missing_in_common_category", "class:cols_different_patterns", "class:weights+facts_missing",
                     "cells:missing_by_value", "cells:missing_no_rows", "class:ignore", "class:propagate",
-                    "class:cell_counter_on_boundary"]
+                    "class:cell_counter_on_boundary", "class:more_than_1024_cells"]
                 for t in ("quick", "thorough")},
     "assumptions": ["a sentinel is compared as cast to the result dtype (an integer result cannot hold 2.5)",
                     "valid_count with a plain replacement value under propagation is excluded as the property states"],
@@ -36,6 +36,11 @@ def shards(tier):
 def cases(ctx):
     rng = ctx.rng
     for i in range(ctx.shard["n"]):
+        if i % 40 == 29:
+            c = aggr.many_cells_case(rng)
+            c["sentinel"] = gen.pick(rng, SENTINELS)
+            yield c
+            continue
         if i % 40 == 11:
             c = aggr.counter_boundary_case(rng)
             c["sentinel"] = gen.pick(rng, SENTINELS)
@@ -63,6 +68,8 @@ def judge(ctx, case):
     ctx.count("class:ignore" if case["ignore_missing"] else "class:propagate")
     if case.get("boundary_m"):
         ctx.count("class:cell_counter_on_boundary")
+    if case.get("many_cells"):
+        ctx.count("class:more_than_1024_cells")
     if fx.ndim == 2 and len({fv[:, k].tobytes() for k in range(fv.shape[1])}) > 1:
         ctx.count("class:cols_different_patterns")
     if wv is not None and (~wv).any() and (~fv).any():
